@@ -62,10 +62,17 @@ Proof. exact cli_plain_java_missing. Qed.
 Print Assumptions C18_cli_plain_java_missing.
 
 Theorem C18_java_lines_dropped : forall msg x, In x (clean_lines msg) ->
-  exists l, In l (cleanup_errors msg) /\ contains s_java_colon l = false /\ contains s_tab_at l = false
+  exists l, In l (cleanup_errors msg) /\ contains s_java_colon l = false /\ contains s_tab_at l = false /\ is_elided_frames l = false
             /\ remove_java_content l = Some x.
 Proof. exact java_lines_dropped. Qed.
 Print Assumptions C18_java_lines_dropped.
+
+(* an instance path is shown as ${name} whatever alphabet the name is written in: every question name that holds no dot is ONE path
+   segment of the pattern (a dot ends a segment: it usually ends the sentence) *)
+Require Import PX.Model.Names.
+Theorem C18_name_is_one_segment : forall n, is_xml_tag n = true -> nochar 46%N n = true -> nochar COLON n = true -> n <> [] /\ forallb segc n = true.
+Proof. exact name_is_one_segment. Qed.
+Print Assumptions C18_name_is_one_segment.
 
 Theorem C18_source_constants : VALIDATE_TIMEOUT_S = 100%N /\ CLI_CODES = [[49;48;48]; [49;48;49]; [57;57;57]]%N.
 Proof. split; reflexivity. Qed.
